@@ -38,6 +38,10 @@ CHECKS["C12"] = dict(design="4 C12/C13", technique="TLA+ spec (ThesTermsOf/Synon
 CHECKS["C13"] = dict(design="4 C12/C13", technique="TLA+ spec (merge law over synonym triples) + TLC walks replayed + TLC trace validation",
     text="As C12 for merged segments: Life.tla enumerates merges of segments with and without thesauri under every drop set; random merge chains (syn profile); TLC compares every thesaurus of the re-opened merged segment with SynonymsOf of the survivors' content under the new numbering.")
 
+CHECKS["C10"] = dict(design="4 C10", technique="TLA+ spec (BuildPool: pooled builder residues) explored by TLC, every build history replayed in one process with the collector parked; concurrent builds under the race detector; every segment validated by TLC against its own batch (TraceLife)",
+    text="BuildPool.tla enumerates every history of <=3 (quick) / <=4 (thorough) builds over batch shapes {empty, id-only, big with many fields/terms/locations/doc values, small with the same field but no doc values, synonym, mixed, rejected by the field validator after the builder was filled} plus pool-emptying collections, checks BuildIndependent, and emits the histories; the harness replays each in one process with GC disabled (the hook VerifBuilderResidue logs what the pooled builder carries over, so inheritance is evidence), followed by seeded shape sequences on generated batches and 6 goroutines building concurrently under -race. Every resulting segment is observed completely and validated by TLC against the specification of its own batch; a failed build must be explained by a rejected batch.")
+HOOK_COMMITS = ["f76ac2a"]
+
 NA = {}
 for i in range(1, 21):
     pid = "C%02d" % i
@@ -67,7 +71,7 @@ def main():
             "guard": "verif",
             "enable": "go build -tags verif (and -tags verif,vectors with the engine double) of /verif/harness, which replaces github.com/blevesearch/zapx/v16 by /repo",
             "baseline_off_cmd": "cd /repo && GOFLAGS=-mod=mod GOPROXY=off GOSUMDB=off go test -vet=off -count=1 ./...",
-            "source_commits": [],
+            "source_commits": HOOK_COMMITS,
             "add_only": True,
         },
         "engines": [
